@@ -53,6 +53,8 @@ CallResult ==
              ELSE o.src[k] \in 0..(Len(cfg.feeds) - 1) /\ cfg.feeds[o.src[k] + 1] > 0 /\ BufsOK(o.ins[k], cfg.feeds[o.src[k] + 1], L)
         /\ BufsOK(o.before, cfg.nout, L) /\ BufsOK(o.after, cfg.nout, L)
         /\ (calls > 0 => o.before = prev)       \* nothing but the node itself writes its buffers
+        \* a wrapper invokes the node it wraps exactly once per call, whatever its buffers (observed on user nodes)
+        /\ (cfg.node.kind = "hold" => o.icalls = calls + 1)
      THEN LET r == NodeStep(cfg.node, st, o.ins, o.before, L)
           IN [ok |-> o.after = r.out, st |-> r.st]
      ELSE [ok |-> FALSE, st |-> st]
